@@ -141,6 +141,12 @@ func (e *Envelope) Dump(path string) error {
 }
 
 func getSignerVerifierFromKey(key Key) (dsse.SignerVerifier, error) {
+	// The signer/verifier constructors below assume that the key material is of
+	// the declared key type
+	if err := validateKeyVal(key); err != nil {
+		return nil, err
+	}
+
 	sslibKey := getSSLibKeyFromKey(key)
 
 	switch sslibKey.KeyType {
